@@ -6,12 +6,9 @@ from __future__ import annotations
 from typing import TYPE_CHECKING
 
 # Third Party Imports
-from numpy import dot, exp, fill_diagonal, matmul, ones, ones_like, sqrt, zeros
-from scipy.linalg import det
+from numpy import fill_diagonal, matmul, ones, zeros
 
 # Local Imports
-from ...physics import constants as const
-from ...physics.maths import fpe_equals
 from ...physics.statistics import oneSidedChiSquareTest
 from .adaptive_filter import AdaptiveFilter
 from .initialization import lambertInitializationFactory
@@ -146,19 +143,12 @@ class GeneralizedPseudoBayesian1(AdaptiveFilter):
         super().update(observations)
 
         if observations:
-            for num, model in enumerate(self.models):
-                # Nastasi, K.N. Dissertation: Section 4.5 Algorithm 4.3 eq 4.9 pg 64
-                self.model_likelihoods[num] = exp(-0.5 * model.nis) / sqrt(
-                    (2 * const.PI) ** self.true_y.shape[0] * det(model.innov_cvr),
-                )
-
-            c = dot(self.model_likelihoods, self.mode_probabilities)
+            # Nastasi, K.N. Dissertation: Section 4.5 Algorithm 4.3 eq 4.9 pg 64
+            self.model_likelihoods, posterior = self._bayesRule(self.mode_probabilities)
             # Check for zero model likelihoods, usually if number of models is large (~100)
-            if fpe_equals(0.0, c):
-                self.model_likelihoods = ones_like(self.mode_probabilities)
-                c = dot(self.model_likelihoods, self.mode_probabilities)
-
-            self.model_weights = (self.model_likelihoods * self.mode_probabilities) / c
+            if posterior is None:
+                posterior = self.mode_probabilities / self.mode_probabilities.sum()
+            self.model_weights = posterior
 
             mix_matrix = self._constructMixMatrix()
             self.mode_probabilities = matmul(mix_matrix, self.model_weights)
